@@ -13,7 +13,10 @@ theorem reject_atomic (g : Group) (a : Args) (e : PyErr) (h : (writeMain g a).2 
   unfold writeMain at h ⊢
   cases hv : validateAll g a with
   | error e' => rfl
-  | ok u => simp [hv] at h
+  | ok u =>
+    by_cases hs : a.storageOk = true
+    · simp [hv, hs] at h
+    · simp [hs]
 
 theorem validateAll_ok (g : Group) (a : Args) (h : validateAll g a = .ok ()) :
     a.groupOk = true ∧ a.stringsOk = true ∧ validateData a = .ok () ∧
@@ -161,7 +164,11 @@ theorem accept_valid (g : Group) (a : Args)
   cases hv : validateAll g a with
   | error e => simp [hv] at h
   | ok u =>
-    simp only
+    have hst : a.storageOk = true := by
+      by_cases hs : a.storageOk = true
+      · exact hs
+      · simp [hv, hs] at h
+    simp only [hst, if_true]
     obtain ⟨pp, hpl, hpn, hplen, hpd, hkeep1⟩ := createSide_link g a.pos a.posPrefix a.s2f a.n hp
     obtain ⟨sp, hsl, hsn, hslen, hsd, hkeep2⟩ :=
       createSide_link (createSide g a.pos a.posPrefix a.s2f).1 a.spec a.specPrefix a.s2f a.m hs
